@@ -8,7 +8,10 @@
    swap-like shuffling).  In the thorough tier action coverage is checked (no action never taken).
 2. harness/c05_*.cpp runs the registered generic operations of fcppt on containers of the instrumented
    element type (harness/common/tracked.hpp) for small shapes x every value category of every argument
-   and records every copy / move / assignment / read / destruction with object ids.
+   and records every copy / move / assignment / read / destruction with object ids.  The harness is built
+   from separately compiled units (a unit that does not compile is replaced by a stub and reported), every
+   history runs under a watchdog, and after a crash / hang inside one history the harness is restarted at the
+   next one: whatever the code under test does, the outcome is a verdict (exit 0 / 1), not exit 2.
 3. spec/LinearityTrace.tla (TLC) replays every recorded history through the machine and reports the
    events it cannot accept.  A self-test log of deliberately wrong operations written in the harness
    must be rejected with exactly the expected reasons (vacuity guard of the judge)."""
@@ -21,7 +24,6 @@ import vlib
 LEVEL = "model_checking"
 TRACE_MODULE = "LinearityTrace"
 TRACE_CFG = "LinearityTrace.cfg"
-SOURCES = ["c05_linear.cpp", "c05_values.cpp", "c05_product.cpp", "c05_nested.cpp", "c05_parsers.cpp"]
 
 BUG_CFGS = [
     ("MC_Linearity_bug_copy.cfg", "InvNoDuplication"),
@@ -49,11 +51,40 @@ SELFTEST = {
     "selftest::rvalue-element-duplicated": {"rvalue-element-duplicated", "copy-of-rvalue-element"},
     "selftest::consumed-then-returned": {"result-holds-moved-from-object", "element-lost"},
     "selftest::moved-twice": {"read-after-move"},
+    "selftest::throws": {"undocumented-exception"},
+    "selftest::opaque-copy": {"copy-of-rvalue-element"},
+    "selftest::untracked-result": {"untracked-object"},
     "selftest::ok": set(),
 }
 
 
-def build():
+# The harness is built from UNITS: one object per (source, -DC05_UNIT_<NAME>), each defining c05::drive_<name>().
+# A unit that does not compile against the tree under test is replaced by a stub (harness/c05_stub.cpp) so that the
+# other units are still linked, run and judged; what the broken unit means is decided by unit_failure().
+UNITS = [  # (name, source, in scope of the statement?)
+    ("algorithm", "c05_algorithm.cpp", True),
+    ("container", "c05_algorithm.cpp", True),
+    ("optionals", "c05_values.cpp", True),
+    ("optionals_multi", "c05_values.cpp", True),
+    ("eithers", "c05_values.cpp", True),
+    ("eithers_multi", "c05_values.cpp", True),
+    ("variants", "c05_values.cpp", True),
+    ("arrays", "c05_product.cpp", True),
+    ("tuples", "c05_product.cpp", True),
+    ("records", "c05_product.cpp", True),
+    ("grids", "c05_nested.cpp", True),
+    ("trees", "c05_nested.cpp", True),
+    ("options_ctor", "c05_parsers.cpp", True),    # "options/parse constructors"
+    ("parse_ctor", "c05_parsers.cpp", True),
+    ("options_parse", "c05_parsers.cpp", False),  # results of running a parser: observed only (see LinearityTrace.tla)
+    ("parse_results", "c05_parsers.cpp", False),
+]
+# diagnostics located in the harness's own OBSERVER code (walking a result, reading labels) do not say that an
+# operation of the statement rejects its arguments
+OBSERVER_CODE = re.compile(r"c05::walk|c05_walk|c05::ids_of|labs_of|c05::end\b|c05::desc|c05::recv_json")
+
+
+def tree_defs():
     defs = []
     # fcppt::array::append names array::size<Array1> with the unstripped type: an lvalue first array is a
     # hard compile error there; drive those categories only when the tree under test has that repaired
@@ -64,13 +95,102 @@ def build():
         txt = open(os.path.join(vlib.REPO, "libs/core/include/fcppt/optional/to_container.hpp")).read()
         if "fcppt::optional::value_type<Optional>(" in txt:
             defs.append("C05_TO_CONTAINER_CONST=1")   # const lvalue optionals compile since 73de222
+        # rvalue sets are spliced since the fix "container::join splices the nodes of rvalue associative
+        # containers" (fixes/C05_join_rvalue_set_copies.diff): the set shapes are always driven
+        defs.append("C05_JOIN_SET_MERGE=1")
     except OSError:
         pass
-    return vlib.build_harness("c05_linear", SOURCES, libs=("core", "options"), defs=tuple(defs))
+    return defs
+
+
+def unit_failure(ctx, name, in_scope, err):
+    """a unit of the harness does not compile against the tree under test (it does against the unchanged tree)"""
+    m = re.search(r"(?:fatal )?error: [^\n]*", err)
+    first = m.group(0) if m else "(no diagnostic)"
+    pos = m.start() if m else 0
+    context = err[max(0, pos - 2500):pos + 400]
+    where = [l.strip()[:220] for l in err.splitlines() if "/libs/" in l and ("required from" in l or "error:" in l or "In instantiation" in l)]
+    ops = sorted(set(re.findall(r"fcppt::(?:algorithm|container|optional|either|variant|array|tuple|record|options|parse)::[a-z_:]+", context)))[:6]
+    obs = ctx.extra.setdefault("observations", {"count": 0, "by_kind": {}, "samples": []})
+    what = ("harness unit '%s' does not compile against this tree: %s; %s; names near the diagnostic: %s"
+            % (name, first, " | ".join(where[-3:]), ", ".join(ops)))
+    observer = bool(OBSERVER_CODE.search(context)) and "/libs/" not in "\n".join(context.splitlines()[-12:])
+    if not in_scope or observer:
+        key = "%s:does-not-compile" % name
+        obs["count"] += 1
+        obs["by_kind"][key] = obs["by_kind"].get(key, 0) + 1
+        obs["samples"].append({"unit": name, "what": what[:600]})
+        print("OBSERVATION (%s, not a violation): %s" % (
+            "outside the statement of C05" if not in_scope else "only the harness's observer code is affected", what[:400]))
+        return
+    # a public operation named by the statement no longer compiles with the well-formed arguments (value categories,
+    # shapes) the harness passes on the unchanged tree: the property cannot hold for inputs the code rejects
+    ctx.reject("C05:%s:does-not-compile" % name, what, {"op": "unit-build", "unit": name, "compiler_output_tail": err[-3000:]})
+
+
+def build(ctx=None):
+    defs = tree_defs()
+    flags0 = vlib.base_flags("asan", "-O1", tuple(defs))
+    tag = vlib.sha((vlib.REPO + "c05units" + " ".join(defs)).encode())[:10]
+    objdir = vlib.mkdir(os.path.join(vlib.BUILD, "obj", tag))
+    libtag = vlib.sha((vlib.REPO + "asan" + "-O1" + "").encode())[:10]   # shared with build_harness(defs=())
+    libdir = vlib.mkdir(os.path.join(vlib.BUILD, "obj", libtag))
+    libflags = vlib.base_flags("asan", "-O1", ())
+    jobs = [("main", os.path.join(vlib.HARNESS, "c05_linear.cpp"), os.path.join(objdir, "h_c05_main.o"), flags0, None)]
+    for name, src, in_scope in UNITS:
+        jobs.append((name, os.path.join(vlib.HARNESS, src), os.path.join(objdir, "h_c05_unit_%s.o" % name),
+                     flags0 + ["-DC05_UNIT_%s=1" % name.upper()], in_scope))
+    for l in ("core", "options"):
+        for p in vlib.lib_sources(l):
+            rel = os.path.relpath(p, os.path.join(vlib.REPO, "libs")).replace("/", "_")
+            jobs.append(("lib", p, os.path.join(libdir, "lib_" + rel + ".o"), libflags, None))
+
+    def one(j):
+        name, src, obj, flags, in_scope = j
+        try:
+            o, rebuilt = vlib.compile_obj(src, obj, flags)
+            return name, o, rebuilt, None
+        except vlib.Infra as e:
+            return name, None, 0, str(e)
+    import time
+    t0 = time.time()
+    res = vlib.parallel(one, jobs, workers=vlib.NCPU)
+    objs, rebuilt, broken = [], 0, []
+    for (name, src, obj, flags, in_scope), (_, o, r, err) in zip(jobs, res):
+        if err is None:
+            objs.append(o)
+            rebuilt += r
+            continue
+        if name in ("main", "lib") or "error:" not in err:
+            # the library itself (or the unit-independent main + selftest) does not build: not a verdict
+            raise vlib.Infra("build of %s failed: %s" % (src, err[-3000:]))
+        if ctx is None:
+            raise vlib.Infra("harness unit %s does not compile: %s" % (name, err[-2000:]))
+        unit_failure(ctx, name, in_scope, err)
+        broken.append(name)
+        stub = os.path.join(objdir, "h_c05_stub_%s.o" % name)
+        o, r = vlib.compile_obj(os.path.join(vlib.HARNESS, "c05_stub.cpp"), stub, flags0 + ["-DC05_STUB_FN=drive_%s" % name])
+        objs.append(o)
+        rebuilt += r
+    out = os.path.join(vlib.mkdir(os.path.join(vlib.BUILD, "bin", tag)), "c05_linear")
+    tout = out + ".tmp%d" % os.getpid()
+    if rebuilt or not os.path.exists(out):
+        import subprocess
+        p = subprocess.run(["g++", "-pthread"] + vlib.SAN_FLAGS["asan"] + objs + ["-o", tout],
+                           stdout=subprocess.PIPE, stderr=subprocess.STDOUT, text=True, errors="replace")
+        if p.returncode != 0:
+            raise vlib.Infra("link failed: c05_linear\n%s" % p.stdout[-4000:])
+        os.replace(tout, out)
+    vlib.log("build c05_linear: %d objects (%d rebuilt, %d units replaced by stubs) in %.1fs" % (len(objs), rebuilt, len(broken), time.time() - t0))
+    if ctx is not None:
+        ctx.extra["units_built"] = [u[0] for u in UNITS if u[0] not in broken]
+        ctx.extra["units_not_built"] = broken
+    return out
 
 
 PROBE_GROUPS = {1: "algorithm+container", 2: "optional", 3: "either", 4: "either::bind+join",
-                5: "variant+array+tuple+record", 6: "grid+tree"}
+                5: "variant+array+tuple+record", 6: "grid+tree",
+                7: "state+void+nary+error-combinators+containers"}
 
 
 def move_only_probe(ctx):
@@ -84,7 +204,7 @@ def move_only_probe(ctx):
             return g, None
         except vlib.Infra as e:
             return g, str(e)
-    res = vlib.parallel(one, sorted(PROBE_GROUPS), workers=6)
+    res = vlib.parallel(one, sorted(PROBE_GROUPS), workers=7)
     ok = []
     for g, err in res:
         if err is None:
@@ -140,6 +260,10 @@ def selftest(ctx, binary):
     rc, out = vlib.run_harness(binary, ["selftest", path], timeout=300)
     if rc != 0:
         raise vlib.Infra("selftest run failed rc=%d: %s" % (rc, out[-400:]))
+    # the same clamping / validation as for recorded logs, checked on a line with an absurd id
+    probe = sanitize(['{"e":"read","obj":18446744073709551615}', '{"e":"end","result":[{"obj":5,"tok":1}]}', '{"e":"rea'])
+    if probe[0] != ['{"e":"read","obj":%d}' % BIG] or probe[3] != 2:
+        raise vlib.Infra("sanitize() self-test failed: %r" % (probe,))
     bad = judge(ctx, path)
     got = {}
     for b in bad:
@@ -166,24 +290,160 @@ def history_of(lines, lineno):
     return lines[j:k + 1]
 
 
-def judge_record(ctx, path, what, rc, out, seed, tier):
-    lines, tail = vlib.check_trace_file(path)
-    if rc != 0:
-        kind = {66: "sanitizer", 67: "crash", 68: "hang", 124: "timeout"}.get(rc, "exit%d" % rc)
-        op = "?"
+REQUIRED = {  # fields every event of a kind must have (a truncated line may by accident be valid JSON)
+    "reset": ("op", "shape", "cats"), "new": ("obj", "tok"), "begin": ("op", "keeps", "args"),
+    "copy": ("src", "dst"), "move": ("src", "dst"), "copy_assign": ("src", "dst"), "move_assign": ("src", "dst"),
+    "read": ("obj",), "destroy": ("obj",), "cb_enter": ("recv",), "cb_exit": (), "end": ("result", "args"),
+    "labels": ("arg", "res"), "throw": (), "crash": (), "done": (),
+}
+BIG = 1 << 30
+
+
+def _clamp(x):
+    """TLC integers are 32-bit: an absurd id / token (garbage memory read through a corrupted object) becomes 2^30,
+    which no constructor ever logged (-> 'untracked-object' / 'token-corrupt' instead of a TLC evaluation error)"""
+    if isinstance(x, bool):
+        return x, False
+    if isinstance(x, int):
+        return (x, False) if 0 <= x < BIG else (BIG, True)
+    if isinstance(x, float):
+        return BIG, True
+    if isinstance(x, list):
+        ch = False
+        out = []
+        for y in x:
+            y2, c = _clamp(y)
+            out.append(y2)
+            ch = ch or c
+        return out, ch
+    if isinstance(x, dict):
+        ch = False
+        out = {}
+        for k, y in x.items():
+            y2, c = _clamp(y)
+            out[k] = y2
+            ch = ch or c
+        return out, ch
+    return x, False
+
+
+def sanitize(lines):
+    """-> (event lines fit for the judge, crash records, done marker seen, number of malformed lines dropped)"""
+    good, crashes, done, dropped = [], [], False, 0
+    for l in lines:
+        try:
+            e = json.loads(l)
+        except ValueError:
+            dropped += 1
+            continue
+        if not isinstance(e, dict) or not isinstance(e.get("e"), str) or e["e"] not in REQUIRED \
+                or any(k not in e for k in REQUIRED[e["e"]]):
+            dropped += 1
+            continue
+        if e["e"] == "crash":
+            crashes.append(e)
+            continue
+        if e["e"] == "done":
+            done = True
+            continue
+        e2, changed = _clamp(e)
+        good.append(json.dumps(e2, separators=(",", ":")) if changed else l)
+    return good, crashes, done, dropped
+
+
+MAX_RUNS = 40          # restarts of the harness after a crash / hang inside one history
+SKIP_AFTER = 2         # an operation that made the process die this often is not driven any more
+KINDS = {66: "sanitizer", 67: "crash", 68: "hang", 124: "hang"}
+
+
+def record(ctx, binary, what, seed, tier, only=None, tag="events"):
+    """Runs the harness.  When the process dies inside history h (crash, sanitizer abort, watchdog), that is a
+    verdict about the operation of history h; the harness is started again at history h + 1, so that everything
+    else is still driven and judged.  Returns (event lines of all runs, stderr of all runs)."""
+    all_lines, all_out = [], []
+    start, fails, skip = 0, {}, []
+    t_hang = 0.0
+    for attempt in range(MAX_RUNS):
+        path = os.path.join(ctx.workdir, "%s_run%d.ndjson" % (tag, attempt))
+        args = ["record", path, seed, tier] + ([only] if only else [])
+        args += ["--start", start, "--seconds", 10 if t_hang < 30 else 3]
+        if skip:
+            args += ["--skip", "|".join(skip)]
+        rc, out = vlib.run_harness(binary, args, timeout=900)
+        all_out.append(out)
+        try:
+            raw, tail = vlib.check_trace_file(path)
+        except OSError:
+            raw, tail = [], None
+        lines, crashes, done, dropped = sanitize(raw)
+        all_lines += lines
+        try:
+            os.unlink(path)
+        except OSError:
+            pass
+        if rc == 0 and done:
+            break
+        kind = KINDS.get(rc, "exit%d" % rc if rc != 0 else "premature-exit")
+        san = re.search(r"(ERROR: \w+Sanitizer: [^\n]*|runtime error: [^\n]*|terminate called[^\n]*\n[^\n]*)", out)
+        detail = san.group(1) if san else (out[-300:] if out else str(crashes[-1:] or ""))
+        if done:
+            # every history ran to its end; the process failed while exiting (leak report, static destructors)
+            fr = re.search(r"in (fcppt::[\w:]+)", out)
+            op = fr.group(1).replace("fcppt::", "") if fr else "process-exit"
+            ctx.reject("C05:%s:%s-at-exit" % (op, kind), "%s at process exit (%s): %s" % (kind, what, detail),
+                       {"op": None, "seed": seed, "tier": tier, "output_tail": out[-3000:]})
+            break
+        last = None
         for l in reversed(lines):
-            m = re.match(r'\{"e":"(?:begin|reset)","op":"([^"]+)"', l)
-            if m:
-                op = m.group(1)
+            if l.startswith('{"e":"reset"'):
+                last = json.loads(l)
                 break
-        san = re.search(r"(ERROR: \w+Sanitizer: [^\n]*|runtime error: [^\n]*)", out)
-        hist = history_of(lines, len(lines)) if lines else []
-        ctx.reject("C05:%s:%s" % (op, kind), "%s during %s (%s): %s" % (kind, op, what, san.group(1) if san else out[-300:]),
+        if last is None or "h" not in last:
+            ctx.reject("C05:harness-startup:%s" % kind, "the harness died before its first history (%s): %s" % (what, detail),
+                       {"op": None, "seed": seed, "tier": tier, "output_tail": out[-3000:]})
+            break
+        op = last["op"]
+        if kind == "hang":
+            t_hang += 10
+        hist = history_of(all_lines, len(all_lines))
+        ctx.reject("C05:%s:%s" % (op, kind), "%s during %s [%s, categories %s] (%s): %s"
+                   % (kind, op, last.get("shape", ""), last.get("cats", ""), what, detail),
                    {"op": op, "seed": seed, "tier": tier, "history": hist[-200:]})
-        with open(path, "w") as f:
-            f.write("\n".join(lines) + ("\n" if lines else ""))
+        ctx.extra.setdefault("harness_restarts", []).append({"history": last["h"], "op": op, "kind": kind})
+        fails[op] = fails.get(op, 0) + 1
+        if (fails[op] >= SKIP_AFTER or kind == "hang") and op not in skip:   # a hang costs the whole watchdog time
+            skip.append(op)
+        start = last["h"] + 1
+        if only and op == only and op in skip:
+            break
+    else:
+        ctx.extra["harness_restarts_exhausted"] = True
+    return all_lines, "\n".join(all_out)
+
+
+MAX_HISTORY = 1500     # events of one history handed to the judge (a runaway history is judged by its prefix)
+
+
+def cut_runaway(lines):
+    out, n = [], 0
+    for l in lines:
+        if l.startswith('{"e":"reset"'):
+            n = 0
+        n += 1
+        if n <= MAX_HISTORY:
+            out.append(l)
+    return out
+
+
+def judge_lines(ctx, lines, what, seed, tier, tag="events"):
+    lines = cut_runaway(lines)
     if not lines:
+        if ctx.violations:
+            return lines
         raise vlib.Infra("harness produced no events")
+    path = os.path.join(ctx.workdir, tag + ".ndjson")
+    with open(path, "w") as f:
+        f.write("\n".join(lines) + "\n")
     bad = judge(ctx, path)
     nhist = 0
     for l in lines:
@@ -219,7 +479,7 @@ def judge_record(ctx, path, what, rc, out, seed, tier):
             ctx.reject(sig, "%s: %s [%s, categories %s]: event %s of the history violates '%s'" % (
                 what, b["op"], head.get("shape", ""), head.get("cats", ""), lines[b["l"] - 1][:200], why),
                 {"op": b["op"], "seed": seed, "tier": tier,
-                 "event": json.loads(lines[b["l"] - 1]), "history": [json.loads(x) for x in hist]})
+                 "event": json.loads(lines[b["l"] - 1]), "history": [json.loads(x) for x in hist[:400]]})
     ctx.extra["rejected_events_by_signature"] = seen
     return lines
 
@@ -253,19 +513,26 @@ def label_corruption_selftest(ctx, lines):
 
 def run(ctx):
     model_check(ctx)
-    binary = build()
+    binary = build(ctx)
     selftest(ctx, binary)
     move_only_probe(ctx)
-    path = os.path.join(ctx.workdir, "events.ndjson")
-    rc, out = vlib.run_harness(binary, ["record", path, ctx.seed, ctx.tier], timeout=1500)
+    lines, out = record(ctx, binary, "recorded history", ctx.seed, ctx.tier)
     ni = sorted(set(re.findall(r"NOT-INSTANTIABLE (.*)", out)))
     ctx.extra["not_instantiable"] = ni
-    lines = judge_record(ctx, path, "recorded history", rc, out, ctx.seed, ctx.tier)
+    lines = judge_lines(ctx, lines, "recorded history", ctx.seed, ctx.tier)
+    if (ctx.violations or "records" in ctx.extra.get("units_not_built", [])) and not any(l.startswith('{"e":"reset","op":"record::permute"') for l in lines):
+        ctx.extra["label_corruption_selftest"] = "skipped (no record::permute history on this tree)"
+        finish_run(ctx, lines)
+        return
     label_corruption_selftest(ctx, lines)
-    for i in (3, len(lines) // 2):
+    finish_run(ctx, lines)
+
+
+def finish_run(ctx, lines):
+    for i in (3, len(lines) // 2) if lines else ():
         h = history_of(lines, max(1, i))
         ctx.sample({"history": [json.loads(x) for x in h[:40]]})
-    if ctx.traces_validated < 500:
+    if ctx.traces_validated < 500 and not ctx.violations:
         raise vlib.Infra("only %d histories recorded" % ctx.traces_validated)
     ctx.exhaustive = False
     ctx.rule = ("one history = one call of a registered generic operation (algorithm, container, optional, either, variant, "
@@ -296,13 +563,17 @@ def replay(ctx, payload):
         ctx.evaluations += len(PROBE_GROUPS)
         ctx.rule = "replay: the move-only compile-time probe"
         return
-    binary = build()
-    path = os.path.join(ctx.workdir, "replay.ndjson")
+    if pl.get("op") == "unit-build":
+        build(ctx)
+        ctx.count_class("unit-build")
+        ctx.count_class("unit-build2")
+        ctx.evaluations += len(UNITS)
+        ctx.rule = "replay: the harness units are compiled against the tree"
+        return
+    binary = build(ctx)
     seed = pl.get("seed", 1)
     tier = pl.get("tier", "quick")
-    args = ["record", path, seed, tier]
-    if pl.get("op") and pl["op"] != "?":
-        args.append(pl["op"])
-    rc, out = vlib.run_harness(binary, args, timeout=1500)
-    judge_record(ctx, path, "replay of %s" % pl.get("op"), rc, out, seed, tier)
+    only = pl["op"] if pl.get("op") and pl["op"] != "?" else None
+    lines, out = record(ctx, binary, "replay of %s" % pl.get("op"), seed, tier, only=only, tag="replay")
+    judge_lines(ctx, lines, "replay of %s" % pl.get("op"), seed, tier, tag="replay")
     ctx.rule = "replay: every history of the saved operation"
